@@ -100,7 +100,8 @@ def triple_quote(string):
     string, quote_types = _str_literal_helper(string, quote_types=['"""', "'''"])
     quote_type = quote_types[0]
 
-    string = string.replace(" \n", " \\n\\\n")
+    # trailing whitespace is protected against formatters which strip it
+    string = string.replace(" \n", " \\n\\\n").replace("\t\n", "\t\\n\\\n")
 
     string = "\\\n" + string
 
